@@ -171,3 +171,110 @@ def k4_diff(seed, n_random=400):
             "stats": {"differential_cases": len(lines)}, "validated": 0,
             "samples": [{"kernel_case": lines[-1], "python": py[-1], "lean": lean[-1]}],
             "fingerprints": ["k4:%d" % i for i in range(len(set(lines)))]}
+
+
+class _PFut(object):
+    def __init__(self, exc):
+        self._e = exc
+
+    def exception(self):
+        return self._e
+
+
+def k1_diff(seed, n_random=300):
+    """ExceptionRetryPolicy.should_retry / sleep_time vs the regenerated Lean kernel K1."""
+    from more_executors.retry import ExceptionRetryPolicy
+
+    class A(Exception):
+        pass
+
+    class B(A):
+        pass
+
+    class C(Exception):
+        pass
+
+    class Fz(Exception):
+        def __bool__(self):
+            return False
+    classes = [A, B, C, Fz]
+    rng = random.Random(seed * 17 + 1)
+    cases = []
+    for ma in (0, 1, 2, 3):
+        for att in (1, 2, 3, 4):
+            for exc in (None, A, B, C, Fz):
+                for base in ([0], [2], [0, 2], [1], []):
+                    cases.append((ma, 2, 1, 5, base, att, exc))
+    for _ in range(n_random):
+        cases.append((rng.randint(0, 6), rng.randint(0, 4), rng.randint(0, 5), rng.randint(0, 60),
+                      rng.sample([0, 1, 2, 3], rng.randint(0, 3)), rng.randint(1, 8), rng.choice([None, A, B, C, Fz])))
+    lines, py = [], []
+    for (ma, ex, sl, ms, base, att, exc) in cases:
+        pol = ExceptionRetryPolicy(max_attempts=ma, exponent=ex, sleep=sl, max_sleep=ms, exception_base=[classes[b] for b in base])
+        e = None if exc is None else exc("x")
+        try:
+            r1 = "true" if pol.should_retry(att, _PFut(e)) else "false"
+        except Exception as err:
+            r1 = "EXC:%s" % type(err).__name__
+        try:
+            v = pol.sleep_time(att, None)
+            r2 = str(int(v)) if float(v) == int(v) else repr(v)
+        except Exception as err:
+            r2 = "EXC:%s" % type(err).__name__
+        inst = [i for i, c in enumerate(classes) if e is not None and isinstance(e, c)]
+        truthy = 1 if (e is not None and bool(e)) else 0
+        lines.append("k1.should %d %d %d %d %s %d %s %d %s" % (ma, ex, sl, ms, ",".join(map(str, base)) or "-", att,
+                                                              "none" if e is None else "exc", truthy, ",".join(map(str, inst)) or "-"))
+        py.append(r1)
+        lines.append("k1.sleep %d %d %d %d %d" % (ma, ex, sl, ms, att))
+        py.append(r2)
+    return _oracle_compare("K1", lines, py)
+
+
+def k2_diff(seed, n_random=300):
+    """RetryExecutor._get_next_job vs the regenerated Lean kernel K2."""
+    from more_executors._impl import retry as rmod
+    rng = random.Random(seed * 19 + 2)
+    cases = []
+    import itertools
+    opts = [(d, st, w) for d in (0, 1) for st in (0, 1) for w in (0, 2, 5)]
+    for n in range(0, 3):
+        for combo in itertools.product(opts, repeat=n):
+            for now in (0, 2, 3):
+                cases.append((now, list(combo)))
+    for _ in range(n_random):
+        cases.append((rng.randint(0, 20), [(rng.randint(0, 1), 1 if rng.random() < 0.15 else 0, rng.randint(0, 25)) for _ in range(rng.randint(0, 7))]))
+    lines, py = [], []
+    saved = rmod.monotonic
+    try:
+        for (now, jobs) in cases:
+            rmod.monotonic = lambda now=now: now
+            ex = rmod.RetryExecutor.__new__(rmod.RetryExecutor)
+            js = []
+            for i, (d, st, w) in enumerate(jobs):
+                j = rmod.RetryJob(None, ("D%d" % i) if d else None, "F%d" % i, 1, w, None, (), {})
+                j.stop_retry = bool(st)
+                j.idx = i
+                js.append(j)
+            ex._jobs = js
+            try:
+                r = ex._get_next_job()
+                r1 = "none" if r is None else str(r.idx)
+            except Exception as err:
+                r1 = "EXC:%s" % type(err).__name__
+            lines.append("k2.next %d %s" % (now, " ".join("%d %d %d %d" % (i, d, st, w) for i, (d, st, w) in enumerate(jobs))))
+            py.append(r1)
+    finally:
+        rmod.monotonic = saved
+    return _oracle_compare("K2", lines, py)
+
+
+def _oracle_compare(name, lines, py):
+    out = leanval.validate_blocks([["S oracle"] + lines + ["."]])[0]
+    assert out.startswith("ORACLE "), out[:200]
+    lean = out[len("ORACLE "):].split(";")
+    bad = [(ln, a, b) for ln, a, b in zip(lines, py, lean) if a != b]
+    return {"hits": [], "broken": ([{"what": "translator differential %s" % name, "detail": "%s: python=%s lean=%s" % bad[0]}] if bad else []),
+            "stats": {"differential_cases": len(lines)}, "validated": 0,
+            "samples": [{"kernel_case": lines[-1], "python": py[-1], "lean": lean[-1]}],
+            "fingerprints": ["%s:%d" % (name.lower(), i) for i in range(len(set(lines)))]}
